@@ -268,9 +268,27 @@ def run(ctx):
         else:
             r4.check(gt == [], "xls2xform_convert:xform.guard", "the XForm is written unconditionally after success", xc.loc(c), why_fail=f"guards={gt}")
     # itemsets beside the xform
-    ip = [x for x in walk_own(xc.node) if isinstance(x, ast.Assign) and "itemsets.csv" in norm(x.value)]
-    r4.check(bool(ip) and "parent" in norm(ip[0].value) and "xform_path" in norm(ip[0].value), "xls2xform_convert:itemsets.path",
-             "itemsets.csv is placed beside the XForm output path", xc.loc(ip[0] if ip else None))
+    from ..astutil import const_str, subst_locals
+    ipath = None
+    for w in walk_own(xc.node):
+        if isinstance(w, ast.With) and any(isinstance(c, ast.Call) and call_name(c) == "write" and c.args and norm(c.args[0]).endswith(".itemsets") for st in w.body for c in ast.walk(st)):
+            for item in w.items:
+                if isinstance(item.context_expr, ast.Call) and call_name(item.context_expr) == "open" and item.context_expr.args:
+                    ipath = subst_locals(item.context_expr.args[0], xc.node)
+    okp = False
+    if isinstance(ipath, ast.BinOp) and isinstance(ipath.op, ast.Div):
+        left, right = norm(ipath.left), ipath.right
+        okc, fname = const_str(ctx, xc.module, right)
+        if not okc and isinstance(right, ast.Name):
+            # an optional parameter whose default is the documented file name
+            a = xc.node.args
+            params = [*a.posonlyargs, *a.args]
+            dflt = dict(zip([p_.arg for p_ in params[len(params) - len(a.defaults):]], a.defaults))
+            dflt.update({p_.arg: d for p_, d in zip(a.kwonlyargs, a.kw_defaults) if d is not None})
+            if right.id in dflt:
+                okc, fname = const_str(ctx, xc.module, dflt[right.id])
+        okp = okc and fname == "itemsets.csv" and ".parent" in left and "xform_path" in left
+    r4.check(okp, "xls2xform_convert:itemsets.path", "itemsets.csv is placed beside the XForm output path", xc.loc())
     # convert(): itemsets computed iff external choices are used; to_xml receives validate flag
     cv = ctx.func("pyxform.xls2xform:convert", "C18.R4")
     tox = [c for c in walk_own(cv.node) if isinstance(c, ast.Call) and call_name(c) == "to_xml"]
